@@ -38,6 +38,19 @@ Design rules (all conservative = they can only ADD atoms / edges):
   * operation classes: private helpers (leading underscore, except a short explicit list) are not roots of a class;
     they are covered through the closure of the public operations that reach them; unclassified PUBLIC methods of
     state / RBM classes default to the read-only class `eval` (fail closed);
+  * locally bound callables are resolved: a call of a nested `def` (by its local name, from the defining function or from a
+    deeper closure), of a local alias of a package / external function (`f = torch.nan_to_num_; f(p)`) or of a lambda bound
+    to a local name binds the actual arguments to the callee's formals (in-place mutation summaries as for any package
+    function); a callable passed as an ARGUMENT (`map(fix, params)`, `map(torch.nan_to_num_, params)`,
+    `map(lambda p: p.clamp_(..), params)`) may be applied to (the elements of) every other argument of that call; a lambda
+    that escapes (stored in an attribute / container, returned) may be applied to a parameter; an external in-place
+    function used as a value anywhere else gives UnknownModule "construct:inplace-function-as-value";
+  * reading the process environment through the file system: `Path.home()`, `Path.cwd()`, `.expanduser()`,
+    `os.path.expanduser / expandvars`, `tempfile.*`, `glob`, `importlib.resources`, and opening / loading a path written as
+    a string constant (`open("/etc/x")`, `np.loadtxt("defaults.txt")`) give Environ: the content of a file that is not
+    named by the caller is a foreign source;
+  * inside callbacks/timer.py clock values also flow through CONTROL dependence: a name / own attribute assigned under a
+    branch or loop whose test reads a clock value is itself a clock value (in every method of the module);
   * statements or expressions the translator does not know give UnknownModule "construct:<X>".
 
 User-supplied callables (optimizer / scheduler classes, metric functions, LambdaCallback
@@ -112,6 +125,22 @@ CONTAINER_MUTATORS = {"append", "extend", "insert", "update", "setdefault", "add
 FILEWRITE_METHODS = {"writerow", "writerows", "writeheader", "write", "writelines", "mkdir", "touch", "unlink",
                      "write_text", "write_bytes", "savefig", "tofile", "dump", "rmdir", "rename"}
 INPLACE_EXTRA = {"__setitem__", "__iadd__", "__isub__", "__imul__", "__itruediv__", "__delitem__"}
+# external names that end with an underscore but are types, not in-place functions
+NOT_INPLACE = {"float_", "int_", "bool_", "str_", "complex_", "bytes_", "object_", "unicode_", "string_", "uint_", "intc_",
+               "longlong_", "half_", "single_", "double_", "longdouble_", "csingle_", "cdouble_", "clongdouble_", "void_",
+               "c_", "r_", "s_", "index_exp_", "mgrid_", "ogrid_"}
+# the process environment seen through the file system
+ENV_PATH_NAMES = {"home", "cwd", "expanduser", "expandvars"}
+FILE_READERS = {"numpy.loadtxt", "numpy.load", "numpy.genfromtxt", "numpy.fromfile", "numpy.memmap", "torch.load",
+                "pathlib.Path.read_text", "pathlib.Path.read_bytes", "pathlib.Path.open", "io.open", "codecs.open"}
+OPERATOR_MUTATORS = {"methodcaller", "setitem", "delitem", "iadd", "isub", "imul", "itruediv", "ifloordiv", "imod", "ipow",
+                     "imatmul", "iand", "ior", "ixor", "iconcat", "ilshift", "irshift",
+                     "__setitem__", "__delitem__", "__iadd__", "__isub__", "__imul__", "__itruediv__"}
+
+
+def inplace_name(last):
+    return (last.endswith("_") and not last.endswith("__") and not last.startswith("_") and last not in NOT_INPLACE) \
+        or last in EXT_MUTATORS
 
 PURE_BUILTINS = {"len", "range", "isinstance", "issubclass", "list", "dict", "int", "float", "str", "min", "max",
                  "abs", "zip", "enumerate", "map", "filter", "iter", "next", "callable", "hasattr", "getattr", "print",
@@ -169,6 +198,7 @@ class Fn:
         self.returns = set()         # markers {"PARAM", "MODULE"}: what a returned value may alias
         self.vararg = None
         self.kwarg = None
+        self.nested = {}             # simple name -> Fn of the defs nested directly in this function
 
     def add(self, atom, line, why):
         if atom not in self.atoms:
@@ -348,6 +378,7 @@ class Translator:
             if isinstance(st, (ast.FunctionDef, ast.AsyncFunctionDef)):
                 g = self.add_fn(q + ".<locals>." + st.name, m, cls, st, f)
                 f.callees.add(g)
+                f.nested.setdefault(st.name, g)
             elif isinstance(st, ast.ClassDef):
                 c = self.add_class(m, st, q + ".<locals>")
                 for fs in c.methods.values():
@@ -536,6 +567,9 @@ class Translator:
             if rest[:1] == ["path"] and rest[-1] in STAT_METHODS:
                 fn.add("Clock", line, why)
                 return
+            if rest[:1] == ["path"] and rest[-1] in ENV_PATH_NAMES:
+                fn.add("Environ", line, why + " (location taken from the process environment)")
+                return
             if not rest or rest[0] == "path" or rest[0] in ("sep", "linesep", "PathLike", "fspath", "devnull"):
                 return
             if rest[0] in OS_ENV:
@@ -553,6 +587,10 @@ class Translator:
         elif top == "matplotlib":
             if not fn.module.relpath.replace(os.sep, "/").endswith("callbacks/liveplotting.py"):
                 fn.add(U("matplotlib"), line, why)
+        elif top == "pathlib" and rest and rest[-1] in ENV_PATH_NAMES:
+            fn.add("Environ", line, why + " (location taken from the process environment)")
+        elif top == "operator" and rest and rest[-1] in OPERATOR_MUTATORS:
+            fn.add(U("operator." + rest[-1]), line, why + " (in-place operation / method call by name through the operator module)")
         elif top in PURE_MODULES:
             return
         else:
@@ -726,6 +764,8 @@ class FnVisitor:
         self.settyped = set()    # local names holding a set
         self.bind_kinds = {}     # local name -> set of {"container", "other"} over all its bindings
         self.set_ok = set()      # id() of set-typed expression nodes used in a harmless position
+        self.callable_alias, self.lambda_alias, self.followed, self.escaping_lambdas = {}, {}, set(), []
+        self.own_names = set()
 
     # ------------------------------------------------------------ scope
     def body_nodes(self):
@@ -769,7 +809,7 @@ class FnVisitor:
         if fn.kind == "function":
             a = node.args
             fn.own_mutable_params = set(fn.all_params)
-            if fn.cls is not None and fn.params and not any(
+            if fn.cls is not None and fn.parent is None and fn.params and not any(
                     isinstance(d, ast.Name) and d.id == "staticmethod" for d in node.decorator_list):
                 fn.own_mutable_params.discard(fn.params[0])      # self / cls
             self.locals |= fn.all_params
@@ -807,6 +847,130 @@ class FnVisitor:
                 self.own_names.add(n.id)
             elif isinstance(n, ast.arg):
                 self.own_names.add(n.arg)
+        self.prepare_callables()
+
+    # ------------------------------------------------------------ locally bound callables
+    @staticmethod
+    def lambdas_of(e):
+        if isinstance(e, ast.Lambda):
+            return [e]
+        if isinstance(e, ast.IfExp):
+            return FnVisitor.lambdas_of(e.body) + FnVisitor.lambdas_of(e.orelse)
+        if isinstance(e, ast.BoolOp):
+            return [x for v in e.values for x in FnVisitor.lambdas_of(v)]
+        return []
+
+    @staticmethod
+    def lambda_params(lam):
+        a = lam.args
+        out = [x.arg for x in getattr(a, "posonlyargs", []) + a.args + a.kwonlyargs]
+        if a.vararg:
+            out.append(a.vararg.arg)
+        if a.kwarg:
+            out.append(a.kwarg.arg)
+        return out
+
+    def prepare_callables(self):
+        """local names bound to callables (nested defs, lambdas, aliases of package / external functions) and the
+        syntactic positions in which a callable value is followed: func of a call, direct argument of a call, value of
+        a plain `name = ...` assignment."""
+        self.callable_alias = {}     # local name -> [("fn", Fn, offset) | ("ext", dotted) | ("lambda", node)]
+        self.lambda_alias = {}       # local name -> [Lambda]
+        self.followed = set()        # id() of expression nodes in a followed position
+        self.escaping_lambdas = []
+        nodes = list(self.walk_scope(self.body + self.extra))
+        for n in nodes:
+            if isinstance(n, ast.Call):
+                self.followed.add(id(n.func))
+                for a in list(n.args) + [k.value for k in n.keywords]:
+                    a = a.value if isinstance(a, ast.Starred) else a
+                    self.followed.add(id(a))
+                    for x in self.branches(a):
+                        self.followed.add(id(x))
+            elif isinstance(n, ast.Assign) and len(n.targets) == 1 and isinstance(n.targets[0], ast.Name):
+                for x in self.branches(n.value):
+                    self.followed.add(id(x))
+                for lam in self.lambdas_of(n.value):
+                    self.lambda_alias.setdefault(n.targets[0].id, []).append(lam)
+        for _ in range(2):
+            for n in nodes:
+                if isinstance(n, ast.Assign) and len(n.targets) == 1 and isinstance(n.targets[0], ast.Name):
+                    have = self.callable_alias.setdefault(n.targets[0].id, [])
+                    for t in self.callable_targets(n.value):
+                        if t not in have:
+                            have.append(t)
+        # a lambda that is neither called, nor passed to a call, nor bound to a plain local name escapes; so does a
+        # lambda-holding local name that is used in any other position
+        named = set(self.lambda_alias)
+        for n in nodes:
+            if isinstance(n, ast.Lambda) and id(n) not in self.followed:
+                self.escaping_lambdas.append(n)
+            elif isinstance(n, ast.Name) and isinstance(n.ctx, ast.Load) and n.id in named and id(n) not in self.followed:
+                self.escaping_lambdas.extend(self.lambda_alias[n.id])
+
+    @staticmethod
+    def branches(e):
+        """the value expression itself and, through conditional expressions / `or`, its alternatives"""
+        out = [e]
+        if isinstance(e, ast.IfExp):
+            out += FnVisitor.branches(e.body) + FnVisitor.branches(e.orelse)
+        elif isinstance(e, ast.BoolOp):
+            for v in e.values:
+                out += FnVisitor.branches(v)
+        return out
+
+    def nested_fn(self, name):
+        f = self.fn
+        while f is not None:
+            if name in f.nested:
+                return f.nested[name]
+            f = f.parent
+        return None
+
+    def alias_of(self, name):
+        out = list(self.callable_alias.get(name, []))
+        p = self.fn.parent
+        while p is not None:
+            pv = self.tr.visitors.get(p)
+            if pv is not None and name not in self.own_names:
+                out += [t for t in getattr(pv, "callable_alias", {}).get(name, []) if t not in out]
+            p = p.parent
+        return out
+
+    def callable_targets(self, e):
+        """what a value expression may denote as a callable: [("fn", Fn, offset) | ("ext", dotted) | ("lambda", node)]"""
+        if isinstance(e, ast.Lambda):
+            return [("lambda", e)]
+        if isinstance(e, (ast.IfExp, ast.BoolOp)):
+            out = []
+            for x in self.branches(e)[1:]:
+                if not isinstance(x, (ast.IfExp, ast.BoolOp)):
+                    out += [t for t in self.callable_targets(x) if t not in out]
+            return out
+        r = None
+        if isinstance(e, ast.Name):
+            if e.id in self.locals:
+                out = []
+                g = self.nested_fn(e.id)
+                if g is not None:
+                    out.append(("fn", g, 0))
+                return out + [t for t in self.alias_of(e.id) if t not in out]
+            r = self.resolve_name(e.id, [])
+        elif isinstance(e, ast.Attribute):
+            ch = self.tr.attr_chain(e)
+            if ch is not None:
+                r = self.resolve_name(ch[0], ch[1])
+            if r is None or (r[0] in ("class", "module", "var", "fn") and len(r) > 2 and r[2]):
+                # a (bound) method taken as a value: by name, properties excluded
+                return [("fn", g, 0 if (g.is_static or g.cls is None or g.parent is not None) else 1)
+                        for g in self.tr.by_name.get(e.attr, []) if not g.is_property]
+        if r is None:
+            return []
+        if r[0] == "ext":
+            return [("ext", r[1])]
+        if r[0] == "fn" and not (len(r) > 2 and r[2]):
+            return [("fn", r[1], 0)]
+        return []
 
     def retaint(self):
         # free variables of a nested function carry the taint they have in the enclosing function
@@ -886,7 +1050,7 @@ class FnVisitor:
 
     def is_self_attr(self, t):
         fn = self.fn
-        return isinstance(t, ast.Attribute) and isinstance(t.value, ast.Name) and fn.cls is not None and fn.params \
+        return isinstance(t, ast.Attribute) and isinstance(t.value, ast.Name) and fn.cls is not None and fn.parent is None and fn.params \
             and t.value.id == fn.params[0] and not fn.is_static
 
     def collect_clock_attrs(self):
@@ -903,6 +1067,20 @@ class FnVisitor:
                         if isinstance(a, ast.Attribute) and isinstance(a.ctx, ast.Store) and a.attr not in self.tr.clock_attrs:
                             self.tr.clock_attrs.add(a.attr)
                             changed = True
+            elif isinstance(n, (ast.If, ast.While)) and self.is_clock(n.test):
+                # control dependence: whatever is assigned under a branch / loop decided by a clock value is a clock value
+                for st in n.body + n.orelse:
+                    for x in ast.walk(st):
+                        if isinstance(x, (ast.Assign, ast.AugAssign, ast.AnnAssign)):
+                            targets = x.targets if isinstance(x, ast.Assign) else [x.target]
+                            for t in targets:
+                                for a in ast.walk(t):
+                                    if isinstance(a, ast.Name) and isinstance(a.ctx, ast.Store) and a.id not in self.clock_names:
+                                        self.clock_names.add(a.id)
+                                        changed = True
+                                    if isinstance(a, ast.Attribute) and isinstance(a.ctx, ast.Store) and a.attr not in self.tr.clock_attrs:
+                                        self.tr.clock_attrs.add(a.attr)
+                                        changed = True
         return changed
 
     PRINT_LIKE = {"print", "float", "int", "round", "str", "abs", "min", "max", "format", "repr", "divmod", "bool", "len"}
@@ -1030,7 +1208,8 @@ class FnVisitor:
             if e.id in self.fn.own_mutable_params:
                 r.add(e.id)
             fn = self.fn
-            if fn.cls is not None and fn.params and e.id == fn.params[0] and not fn.is_static and tr.is_module_class(fn.cls):
+            if fn.cls is not None and fn.parent is None and fn.params and e.id == fn.params[0] and not fn.is_static \
+                    and tr.is_module_class(fn.cls):
                 r.add("MODULE")                  # `self` inside a method of an nn.Module subclass
             return r
         if isinstance(e, ast.Attribute):
@@ -1133,7 +1312,7 @@ class FnVisitor:
             if m in self.tr.by_name:
                 # sound default: the result may alias the receiver or any argument, and whatever a callee of that name
                 # is known to return (parameters reached through self, e.g. a helper returning self.parameters())
-                cands = [(g, 0 if (g.is_static or g.cls is None) else 1) for g in self.tr.by_name[m]]
+                cands = [(g, 0 if (g.is_static or g.cls is None or g.parent is not None) else 1) for g in self.tr.by_name[m]]
                 return (recv - {"MODULE"}) | self.result_roots(cands, call)
             return recv
         return set()
@@ -1209,10 +1388,50 @@ class FnVisitor:
                             self.tr.alias_attrs.add(base.attr)
                         if "MODULE" in r:
                             self.tr.module_attrs.add(base.attr)
-                elif isinstance(n, ast.Assign) and False:
-                    pass
+                if isinstance(n, ast.Call):
+                    self.taint_lambda_params(n)
+            for lam in self.escaping_lambdas:
+                for pn in self.lambda_params(lam):
+                    self.taint.setdefault(pn, set()).add("PARAM")    # may be applied to anything, a parameter included
             if before == self.taint and sbefore == self.settyped:
                 break
+
+    def taint_lambda_params(self, call):
+        """a lambda passed to a call may be applied to (the elements of) every other argument of that call; a lambda bound
+        to a local name / called directly receives the arguments of the call."""
+        args = list(call.args) + [k.value for k in call.keywords]
+        lams = []
+        for a in args:
+            a0 = a.value if isinstance(a, ast.Starred) else a
+            ls = []
+            for x in self.branches(a0):
+                if isinstance(x, ast.Lambda):
+                    ls.append(x)
+                elif isinstance(x, ast.Name) and x.id in self.locals:
+                    ls += [t[1] for t in self.alias_of(x.id) if t[0] == "lambda"]
+            if ls:
+                lams.append((a, ls))
+        for a, ls in lams:
+            others = set()
+            for b in args:
+                if b is not a:
+                    others |= self.roots(b)
+            if others:
+                for lam in ls:
+                    for pn in self.lambda_params(lam):
+                        self.taint.setdefault(pn, set()).update(others)
+        f = call.func
+        direct = []
+        if isinstance(f, ast.Lambda):
+            direct = [f]
+        elif isinstance(f, ast.Name) and f.id in self.locals:
+            direct = [t[1] for t in self.alias_of(f.id) if t[0] == "lambda"]
+        if direct:
+            r = self.args_roots(call)
+            if r:
+                for lam in direct:
+                    for pn in self.lambda_params(lam):
+                        self.taint.setdefault(pn, set()).update(r)
 
     def is_container_expr(self, e):
         """an expression that certainly evaluates to a fresh dict / list (a container, not a tensor)."""
@@ -1384,6 +1603,7 @@ class FnVisitor:
         r = self.resolve_name(name, [])
         if r is not None:
             self.apply_resolved(r, n.lineno, name)
+            self.inplace_value(r, n)
             return
         if name in BUILTIN_ATOMS:
             for a in BUILTIN_ATOMS[name]:
@@ -1416,6 +1636,12 @@ class FnVisitor:
         elif r[0] == "pkg-unresolved":
             fn.add(U("unresolved:" + r[1]), line, text)
 
+    def inplace_value(self, r, n):
+        """an external in-place function used as a value in a position the translator does not follow (stored in an
+        attribute / container, returned, ...): fail closed."""
+        if r[0] == "ext" and isinstance(n.ctx, ast.Load) and inplace_name(r[1].split(".")[-1]) and id(n) not in self.followed:
+            self.fn.add(U("construct:inplace-function-as-value"), n.lineno, r[1] + " used as a value")
+
     def by_name_edges(self, attr):
         for g in self.tr.by_name.get(attr, ()):
             self.fn.callees.add(g)
@@ -1441,9 +1667,14 @@ class FnVisitor:
             if r is not None:
                 e._chain_root = True
                 self.apply_resolved(r, n.lineno, ".".join([root] + attrs))
+                self.inplace_value(r, n)
                 return
             for a in attrs:
                 self.by_name_edges(a)
+            if isinstance(n.ctx, ast.Load) and inplace_name(n.attr) and id(n) not in self.followed \
+                    and n.attr not in self.tr.inst_attr_assigners:
+                # a bound in-place method taken as a value (f = p.clamp_): whoever calls it writes the receiver
+                self.mutation(self.roots(n.value), n.lineno, "bound in-place method .%s taken as a value" % n.attr)
         else:
             e2 = n
             while isinstance(e2, ast.Attribute):
@@ -1474,7 +1705,14 @@ class FnVisitor:
         if isinstance(f, ast.Name):
             name = f.id
             if name in self.locals:
-                pass             # user-supplied / locally bound callable: references were handled where it was bound
+                # a nested def / a local alias of a package or external function is resolved; a user-supplied callable
+                # (function parameter) is outside the translated program
+                for t in self.callable_targets(f):
+                    if t[0] == "fn":
+                        fn.callees.add(t[1])
+                        target_fns.append((t[1], t[2]))
+                    elif t[0] == "ext":
+                        self.ext_call(t[1], call)
             else:
                 r = self.resolve_name(name, [])
                 if r is not None:
@@ -1486,6 +1724,8 @@ class FnVisitor:
                         self.ext_call(r[1], call)
                 elif name in ("set", "frozenset"):
                     pass
+                elif name == "open" and call.args and self.fixed_path(call.args[0]):
+                    fn.add("Environ", line, "opens a path that is fixed in the source, not named by the caller")
                 elif name in SET_OK_CONSUMERS:
                     for a in call.args:
                         self.mark_set_ok(a)
@@ -1527,7 +1767,7 @@ class FnVisitor:
                 names = self.dynamic_names(f.args[1])
                 if names is None:
                     fn.callees.add(tr.any_method)
-                    target_fns.extend((g, 0 if (g.is_static or g.cls is None) else 1) for g in tr.any_method.callees)
+                    target_fns.extend((g, 0 if (g.is_static or g.cls is None or g.parent is not None) else 1) for g in tr.any_method.callees)
                 else:
                     for nm in sorted(names):
                         self.by_name_edges(nm)
@@ -1539,7 +1779,7 @@ class FnVisitor:
                             fn.add("RngTorch", line, "dynamic method ." + nm + "()")
                         if not tr.by_name.get(nm) and nm not in tr.inst_attr_assigners and nm not in tr.known_attrs:
                             fn.add(U("method:" + nm), line, "dynamically dispatched method of unknown type")
-                        target_fns.extend((g, 0 if (g.is_static or g.cls is None) else 1) for g in tr.by_name.get(nm, []))
+                        target_fns.extend((g, 0 if (g.is_static or g.cls is None or g.parent is not None) else 1) for g in tr.by_name.get(nm, []))
             else:
                 ch = tr.attr_chain(inner)
                 if ch is not None:
@@ -1554,6 +1794,28 @@ class FnVisitor:
             pass                 # callable taken from a container / conditional: references handled where built
         else:
             fn.add(U("construct:call-" + type(f).__name__), line, "call of an expression that is not understood")
+        # ---- callables handed over as arguments: may be applied to (the elements of) every other argument
+        args_all = list(call.args) + [k.value for k in call.keywords]
+        for a in args_all:
+            a0 = a.value if isinstance(a, ast.Starred) else a
+            if not isinstance(a0, (ast.Name, ast.Attribute, ast.IfExp, ast.BoolOp)):
+                continue
+            ts = [t for t in self.callable_targets(a0) if t[0] != "lambda"]
+            if not ts:
+                continue
+            others = set()
+            for b in args_all:
+                if b is not a:
+                    others |= self.roots(b)
+            if not others:
+                continue
+            cands = [(t[1], 0) for t in ts if t[0] == "fn"]
+            if cands:
+                fn.callees.update(g for g, _ in cands)
+                fn.pending_arg_mut.append((cands, {"pos": [(True, others)], "kw": {}, "starstar": set()}, line))
+            for t in ts:
+                if t[0] == "ext" and inplace_name(t[1].split(".")[-1]):
+                    self.mutation(others, line, "in-place function %s handed over as a callable next to a parameter-rooted argument" % t[1])
         # ---- argument mutation through package functions
         if target_fns:
             binding = self.call_binding(call)
@@ -1613,6 +1875,24 @@ class FnVisitor:
                 self.fn.add(U("uninitialised-memory"), call.lineno, dotted + "(<sizes>) allocates uninitialised memory")
         if (last.endswith("_") and not last.endswith("__")) or last in EXT_MUTATORS:
             self.mutation(self.args_roots(call), call.lineno, "in-place function %s on a parameter" % dotted)
+        if (dotted in FILE_READERS or last == "open") and call.args and self.fixed_path(call.args[0]):
+            self.fn.add("Environ", call.lineno, "%s reads a path that is fixed in the source, not named by the caller" % dotted)
+
+    def fixed_path(self, e):
+        """a path expression built only from string constants, module-level names and imported modules (no local / parameter
+        / attribute of a local object takes part): the location is not an input of the operation."""
+        has_fixed = False
+        for n in ast.walk(e):
+            if isinstance(n, ast.Constant) and isinstance(n.value, str) and n.value:
+                has_fixed = True
+            elif isinstance(n, ast.Name):
+                if n.id in self.locals:
+                    return False
+                if n.id in self.m.globals:
+                    has_fixed = True
+                elif n.id == "__file__":
+                    return False         # a data file shipped with the package is part of the program
+        return has_fixed
 
     def method_call(self, call, f, target_fns):
         fn, tr = self.fn, self.tr
@@ -1632,14 +1912,14 @@ class FnVisitor:
                 # unless all the non-package bases are whitelisted externals
                 if not ok:
                     self.by_name_edges(m)
-                    target_fns.extend((g, 0 if (g.is_static or g.cls is None) else 1) for g in tr.by_name.get(m, []))
+                    target_fns.extend((g, 0 if (g.is_static or g.cls is None or g.parent is not None) else 1) for g in tr.by_name.get(m, []))
                 else:
                     fn.callees.update(found)
                     target_fns.extend((g, 0 if g.is_static else 1) for g in found)
             f._inner = True      # do not add the by-name edges for this attribute again
             return
         cands = list(tr.by_name.get(m, []))
-        target_fns.extend((g, 0 if (g.is_static or g.cls is None) else 1) for g in cands)
+        target_fns.extend((g, 0 if (g.is_static or g.cls is None or g.parent is not None) else 1) for g in cands)
         # classes addressed as attributes  (module.Class(...))
         for c in tr.cls_by_name.get(m, []):
             self.constructor_edges(c, line)
@@ -1655,6 +1935,8 @@ class FnVisitor:
             fn.add(U("uninitialised-memory"), line, "method ." + m + "() returns uninitialised memory")
         if m in STAT_METHODS and not cands:
             fn.add("Clock", line, "method ." + m + "() (file times)")
+        if m in ENV_PATH_NAMES and not cands:
+            fn.add("Environ", line, "method ." + m + "() (location taken from the process environment)")
         if m in FILEWRITE_METHODS and not cands:
             fn.add("FileWrite", line, "method ." + m + "()")
         if (m.endswith("_") and not m.endswith("__")) or m in INPLACE_EXTRA:
